@@ -40,7 +40,7 @@ CONFIG = {
     'thorough': {'shards': 32, 'cases': 25, 'timeout': 3400, 'floor': 400, 'case_timeout': 0},
 }
 REQUIRED = ['seed_zero_cases', 'variants_compared', 'digests_compared', 'discipline_batches_checked', 'init_state_table_entries', 'variant_fresh_process',
-            'variant_global_rng', 'variant_history', 'variant_order_reversed', 'variant_order_random', 'variant_bh_history', 'variant_hashseed',
+            'variant_global_rng', 'variant_history', 'variant_order_reversed', 'variant_order_random', 'variant_bh_history', 'variant_names_low', 'variant_names_high', 'specs_with_prefix_related_names', 'variant_hashseed',
             'variant_multiprocessing', 'variant_same_sampler_twice', 'entry_point_agreements', 'specs_with_reorderable_nodes']
 
 CHILD_VARIANTS = ['ref', 'hash1', 'hash2', 'hashrandom', 'mp']
@@ -53,6 +53,20 @@ def gen_spec(rng):
         indep = [p['name'] for p in spec['params'] if not p.get('hier')]
         created = [p['name'] for p in spec['params']]
         if len(indep) >= 2 and [n for n in created if n in indep] != sorted(indep):
+            if rng.random() < 0.5:
+                # two independent stochastic nodes whose names are related by a prefix ('p0' and 'p0_a'): the private constants elfi
+                # creates for their arguments are then named '_p0_<random>' and '_p0_a_<random>'
+                a, b = sorted(indep)[:2]
+                # names that sort before elfi's own instruction nodes ('_batch_size', '_random_state'): 'a0' and 'a0_b'
+                ren = {a: 'a0', b: 'a0_b'}
+                for p in spec['params']:
+                    p['name'] = ren.get(p['name'], p['name'])
+                    p['args'] = [({'ref': ren.get(x['ref'], x['ref'])} if isinstance(x, dict) else x) for x in p['args']]
+                spec['prefix_pair'] = ['a0', 'a0_b']
+                created2 = [p['name'] for p in spec['params']]
+                indep2 = [p['name'] for p in spec['params'] if not p.get('hier')]
+                if [n for n in created2 if n in indep2] == sorted(indep2):
+                    spec['params'] = spec['params'][::-1] if not any(p.get('hier') for p in spec['params']) else spec['params']
             return spec
 
 
@@ -288,6 +302,16 @@ def run_shard(ctx):
             res['order_reversed'] = execute(case, order=created[::-1])
             res['order_random'] = execute(case, order=case['order_random'])
             res['bh_history'] = execute(case, bh_indices=sorted(case['bh_indices'], reverse=True) + case['bh_indices'])
+            # the random suffixes of automatically named private constants must not matter: force them low / high
+            import elfi.model.elfi_model as em
+            saved = em.random_name
+            try:
+                for label, start in (('names_low', 0x0000), ('names_high', 0xfff0 - 0x0400)):
+                    counter = iter(range(start, start + 0x0400))
+                    em.random_name = lambda length=4, prefix='', _c=counter: prefix + ('%04x' % next(_c))[:max(length, 4)]
+                    res[label] = execute(case)
+            finally:
+                em.random_name = saved
             inproc.append(res)
         except Violation as v:
             inproc.append(v)
@@ -341,7 +365,7 @@ def _decide(ctx, case, inproc, child, ci):
     compare(ctx, ref, r, 'multiprocessing', case)
     check_entry_points(ctx, r, 'multiprocessing')
     ctx.event('variant_multiprocessing')
-    for v in ['global_rng', 'history', 'order_reversed', 'order_random', 'bh_history']:
+    for v in ['global_rng', 'history', 'order_reversed', 'order_random', 'bh_history', 'names_low', 'names_high']:
         r = inproc[v]
         compare(ctx, ref, r, v, case)
         check_entry_points(ctx, r, v)
@@ -352,6 +376,7 @@ def _decide(ctx, case, inproc, child, ci):
     indep = [p['name'] for p in case['spec']['params'] if not p.get('hier')]
     ctx.event('specs_with_reorderable_nodes', len(indep) >= 2)
     ctx.event('seed_zero_cases', case['seed'] == 0)
+    ctx.event('specs_with_prefix_related_names', bool(case['spec'].get('prefix_pair')))
     ctx.nontrivial(len(case['spec']['params']) + 1 >= 2)
 
 
